@@ -201,6 +201,48 @@ inline void run(Ctx& C) {
       C.end();
     });
   }
+  // ---- 5. one copied string shared by N users (reference count width), then one user goes away
+  {
+    std::vector<size_t> counts = {2, 3, 254, 255, 256, 257, 300, 65534, 65535, 65536, 65537};
+    for (size_t N : counts) {
+      if (sizeof(detail::SlotId) == 1 && N > 250) continue;  // more users than slots: not a history below the limits
+      if (sizeof(detail::SlotId) == 2 && N > 65000) continue;
+      for (int how = 0; how < 3; how++) {
+        if (!C.take()) continue;
+        std::string key = "ledger:" + cfg + "|shared-string-users=" + std::to_string(N) + "|then=" + (how == 0 ? "remove-first" : how == 1 ? "overwrite-last" : "remove-all-but-one");
+        C.begin(key);
+        Capped A;
+        std::string problems;
+        {
+          JsonDocument doc(&A);
+          JsonArray arr = doc.to<JsonArray>();
+          bool ok = true;
+          for (size_t i = 0; i < N && ok; i++) ok = arr.add(std::string("shared-value"));
+          if (!ok) problems += "could not store " + std::to_string(N) + " users; ";
+          size_t blocksBefore = A.live.size();
+          if (how == 0) arr.remove(size_t(0));
+          else if (how == 1) arr[N - 1].set(7);
+          else for (size_t i = 0; i + 1 < N; i++) arr.remove(size_t(0));
+          // every remaining user still reads the string (touching a released block is an ASan report)
+          size_t readers = 0;
+          for (JsonVariantConst v : arr)
+            if (v.is<const char*>()) { if (v.as<std::string>() != "shared-value") problems += "a remaining user reads other bytes; "; readers++; }
+          size_t expectReaders = how == 2 ? 1 : N - 1;
+          if (ok && readers != expectReaders) problems += "expected " + std::to_string(expectReaders) + " remaining users, found " + std::to_string(readers) + "; ";
+          // while users remain the string block must still be live: there is exactly one block that is not a pool / pool table
+          if (ok && A.live.size() > blocksBefore) problems += "blocks appeared while removing users; ";
+          problems += A.takeErrors();
+          doc.clear();
+          if (!A.live.empty()) problems += "blocks live after clear(); ";
+        }
+        if (!A.live.empty()) problems += "blocks live after destruction; ";
+        problems += A.takeErrors();
+        if (!problems.empty()) C.failKey(key, "shared-string", problems);
+        C.nontrivial();
+        C.end();
+      }
+    }
+  }
   C.metrics["deserializer_inputs_on_ledger"] += double(C.evaluations);
   C.bound("deserializer inputs on a ledger allocator: string/key lengths " + std::string(maxLen <= 255 ? "0..3*max+5 (all)" : "28 boundary lengths up to 3*max") +
           " x 4 roles x JSON/MessagePack (+2 truncations each); 45 hostile MessagePack headers x 4 tails; all 1-2 byte" + (T ? " and 64x65536 header-led 3-byte" : "") +
